@@ -76,7 +76,8 @@ PROPS = {
                 rule="mixed API histories (commit, multiproof create+verify, IPA, MSM, group programs, batch helpers, transcripts, decoders, DivideOnDomain, serde) issued from 4/8/16 goroutines sharing one IPAConfig, race detector on, GOMAXPROCS 1/2/16; every output must equal the sequential model output.",
                 explanation="Protocol-level theorems (order independence of every merge, no deadlock / all results delivered for the fan-out/fan-in skeletons) are proved on the model; absence of data races and real scheduling are runtime facts sampled with the Go race detector, not proved."),
     "C13": dict(level="proof", workers=1, model_workers=16,
-                modes=[{"name": "purity-fingerprint", "args": ["-purity"]}],
+                modes=[{"name": "purity-fingerprint", "args": ["-purity"]},
+                       {"name": "purity-cpu2", "args": ["-purity"], "prefix": taskset(2), "filter": "^mp "}],
                 rule="mixed API histories executed sequentially; a fingerprint of SRS, Q, weight tables, precomputed tables (strided per call, complete before/after the history), package variables and labels is taken around every call; every call checks its own inputs bit-for-bit afterwards; outputs compared with the model (history independence: the model is a pure function of the case line)."),
     "C14": dict(ties=['Schedules'], level="proof", selftest=True, verdict=c14_verdict,
                 rule="operation sequences of length 0..64 (thorough 0..512) over the five operations, empty labels/messages, pending buffers beyond 1 kB / 4 kB / 20 kB, scalars 0, r-1, points in several representations, consecutive challenges; binding pairs (same-shape byte change, swap, drop, protocol label change, label/message boundary shift)."),
@@ -86,7 +87,7 @@ PROPS = {
                 rule="byte strings of every length 0..64 for the three decoders; values 0,1,r-1,r,r+1,2r-1,2r,p,2^256-1 in 32/33/40/64-byte encodings; canonical and just-non-canonical 32-byte values; the caller's buffer is compared before/after and decoded twice."),
     "C17": dict(level="proof",
                 rule="0,1,2,4,5,7,p-1,p-2,-5,d; every 2^k-th root of unity (k=0..32) and products with odd-order elements; every 8-bit value in each of the four discrete-log blocks with the other blocks zero/random/odd/even; random squares and non-squares in equal share; point recovery for random x with both sign requests."),
-    "C18": dict(ties=['Consts'], level="proof",
+    "C18": dict(ties=['Consts'], level="proof", modes=[{"name": "default"}, {"name": "cpu3", "prefix": taskset(3)}, {"name": "cpu7-procs5", "prefix": taskset(7), "env": {"GOMAXPROCS": "5"}}],
                 rule="both precomputed tables (512+510 entries); f in {random, unit vectors, constant, r-1, zero, X^255}; z in {256,257,r-1,2^200,random}: inner product with barycentric coefficients against direct Lagrange evaluation; DivideOnDomain for all 256 indices against the model and the defining relation q_i (i-k) = f_i - f_k."),
     "C19": dict(level="proof", race=True, modes=[{"name": "default"}, {"name": "conc16", "args": ["-conc", "16"], "workers": 1, "filter": "^batch ", "env": {"VERIF_BATCH_REPEAT": "40"}}],
                 rule="element lists of length 0..310 from random histories with repeated pointers (alias), mixed normalised/projective/sign-flipped, identity included: batch serialisers, BatchMapToScalarField, BatchNormalize vs single-element results from the model; one un-normalisable element (Z=0) at each position must fail with nothing modified."),
